@@ -21,7 +21,7 @@ def make_cases(tier, rng):
             bufsize = rng.choice([16, 64, 256])
         so = stdout or rng.choice([(0, [1]), (200000, [1, 100, 70000]), (50000, [65536, 65537])])
         cases.append({"name": "se%d" % len(cases), "bufsize": bufsize, "tokens": tokens, "unterminated": unterminated,
-                      "stdout_bytes": so[0], "stdout_lines": so[1]})
+                      "stdout_bytes": so[0], "stdout_lines": so[1], "stderr_first": len(cases) % 4 == 3})
     # every kind alone, fitting and long, each terminator, several buffer sizes
     for k in KINDS:
         for fit in ["fits", "long"]:
